@@ -787,7 +787,7 @@ func (c *Ctx) emitMany(os []*Oblig, allAxioms bool) (string, bool) {
 		}
 	}
 	for _, apps := range bySym {
-		if len(apps) < 2 || len(apps) > 10 {
+		if len(apps) < 2 || len(apps) > 24 {
 			continue
 		}
 		for i := 0; i < len(apps); i++ {
@@ -846,6 +846,15 @@ func (c *Ctx) emitMany(os []*Oblig, allAxioms bool) (string, bool) {
 	if len(lits) > 1 {
 		sort.Strings(lits)
 		fmt.Fprintf(&b, "(assert (distinct %s))\n", strings.Join(lits, " "))
+	}
+	for _, nm := range c.appOrder {
+		if need[nm] {
+			var as []string
+			for _, a := range c.appArgs[nm] {
+				as = append(as, a.S)
+			}
+			fmt.Fprintf(&b, "; app %s = %s(%s)\n", nm, c.symOfConst[nm], strings.Join(as, ", "))
+		}
 	}
 	for _, cg := range congr {
 		fmt.Fprintf(&b, "(assert %s)\n", cg)
